@@ -339,6 +339,10 @@ def entry_points(path, cwds):
     # bytes, the configuration reader needs text)
     eps.append(("absfile-binary", None, ("fileb", path)))
     eps.append(("relfile-binary", cwds[-1], ("fileb", os.path.relpath(path, cwds[-1]))))
+    # the loader behind the zconfig_schema2html command and the Sphinx directive (schemas only)
+    eps.append(("tool-abspath", None, ("tool", path)))
+    eps.append(("tool-relpath", cwds[0], ("tool", os.path.relpath(path, cwds[0]))))
+    eps.append(("tool-relpath", cwds[-1], ("tool", os.path.relpath(path, cwds[-1]))))
     return eps
 
 
@@ -350,7 +354,12 @@ def load_via(kind, schema, ep):
         os.chdir(cwd)
     try:
         try:
-            if isinstance(what, tuple) and what[0] == "fileb":
+            if isinstance(what, tuple) and what[0] == "tool":
+                if kind != "schema":
+                    return ("skip",)
+                import ZConfig._schema_utils
+                r = ZConfig._schema_utils.load_schema(what[1])
+            elif isinstance(what, tuple) and what[0] == "fileb":
                 if kind != "schema":
                     return ("skip",)
                 with open(what[1], "rb") as fh:
